@@ -1233,6 +1233,27 @@ def rpx_rules(ctx, prefix):
         for nm_, inits_ in locs.items():
             if len(inits_) == 1 and re.search(r"\b%s\b" % re.escape(nm_), iv_full) and nm_ != vname:
                 iv_full = re.sub(r"\b%s\b" % re.escape(nm_), "(" + sir.expr_str(inits_[0]).replace(" ", "") + ")", iv_full)
+        # the flag may be computed by a private one-parameter helper (`integral_value(vw_value)`): its body is read with the
+        # argument in place of the parameter
+        def _open_helpers(e_, depth=0):
+            out_ = ""
+            e0_ = sir.strip_ref(e_)
+            if e0_.get("k") == "path" and len(e0_["segs"]) == 1 and len(locs.get(e0_["segs"][0], [])) == 1 and depth < 3:
+                return _open_helpers(locs[e0_["segs"][0]][0], depth + 1)
+            for c_ in sir.walk(e0_):
+                if c_.get("k") == "call" and len(c_["args"]) == 1:
+                    gs_ = [g_ for g_ in ctx.sc.fns if g_.name == sir.call_name(c_) and g_.body and not g_.base and len(g_.params) == 1]
+                    if len(gs_) == 1 and gs_[0].param_names()[0]:
+                        body_ = " ".join(sir.expr_str(x_).replace(" ", "") for x_ in sir.walk(gs_[0].body) if x_.get("k") in ("mcall", "binary", "path", "call"))
+                        for st_ in sir.walk(gs_[0].body):
+                            if st_.get("k") == "local" and st_["pat"].get("k") == "p_ident" and st_.get("init") is not None:
+                                body_ += "(" + sir.expr_str(st_["init"]).replace(" ", "") + ")"
+                        out_ += " " + re.sub(r"\b%s\b" % re.escape(gs_[0].param_names()[0]), "(" + sir.expr_str(sir.strip_ref(c_["args"][0])).replace(" ", "") + ")", body_)
+            return out_
+        if "int_value" in tokf:
+            iv_full += _open_helpers(tokf["int_value"])
+            if vname is None:
+                pass
         okt = shown.get("has_sign") == "has_sign" and bool(vname) and re.search(r"\b%s\b" % re.escape(vname), iv_full) is not None and ".round()" in iv_full and "EPSILON" in iv_full
     obs.append(ob("%s.expr/token" % prefix, okt, where, "emitted token: %s (expected: the converted value, has_sign forwarded, integer flag from the converted value, unit vw)" % shown,
                   witness=None if okt else "tiny or huge converted values snap to an integer / -0rpx becomes +0vw"))
